@@ -58,6 +58,22 @@ pub fn c07(o: &Opts) -> Outcome {
         return Outcome { cases: 1, witness: c07_one(&recs, inp["k"].parse().unwrap(), inp["threads"].parse().unwrap(), inp["mem"].parse().unwrap(), inp["acgt"] == "true") };
     }
     let mut rng = Rng(o.seed.wrapping_mul(0x9E3779B97F4A7C15) | 1);
+    // extreme multiplicity (one k-mer more than 2^16 times), and inputs with fewer distinct k-mers than partitions
+    {
+        let homo = vec![vec![b'A'; 70_000], b"ACGTACGTACGTAAAAAAAAAAAA".to_vec()];
+        for (threads, mem) in [(1usize, 6.0f64), (4, 6.0)] {
+            cases += 1;
+            if let Some(mut w) = c07_one(&homo, 10, threads, mem, false) {
+                for kv in w.iter_mut() { if kv.0 == "records" { kv.1 = "<70000 x A>|ACGTACGTACGTAAAAAAAAAAAA".into(); } }
+                return Outcome { cases, witness: Some(w) };
+            }
+        }
+        let few = vec![b"AAAAAAAAAAAAAAAAAAAA".to_vec(), b"AAAAAAAAAAAAAAA".to_vec(), b"ACG".to_vec()];
+        for (threads, mem) in [(8usize, 6.0f64), (3, 1e-7)] {
+            cases += 1;
+            if let Some(w) = c07_one(&few, 10, threads, mem, true) { return Outcome { cases, witness: Some(w) }; }
+        }
+    }
     for round in 0..(if o.thorough { 60 } else { 10 }) {
         let k = [1usize, 3, 10, 15, 21, 31][round % 6];
         let n = 1 + rng.below(40) as usize;
